@@ -9,3 +9,5 @@ import TssVerif.Props.C06
 import TssVerif.Props.C13
 import TssVerif.Props.C12
 import TssVerif.Props.GenObligations
+import TssVerif.Props.C10
+import TssVerif.Props.C11
